@@ -1026,6 +1026,44 @@ func main() {
 		runFlushConc(out, root, id, progs, sched, "random")
 		id++
 	}
+	schemaFlushDirected(out, root, &id)
+	for i := 0; i < nConc; i++ {
+		nt := r.Range(2, 3)
+		progs := make([][]sreq, nt)
+		for t := range progs {
+			for j := r.Range(1, 3); j > 0; j-- {
+				switch x := r.Intn(100); {
+				case x < 55:
+					progs[t] = append(progs[t], sreq{"f", r.Intn(4)})
+				case x < 85:
+					progs[t] = append(progs[t], sreq{"t", r.Intn(3)})
+				default:
+					progs[t] = append(progs[t], sreq{"g", 0})
+				}
+			}
+		}
+		var sched []int
+		for j := r.Range(3, 18); j > 0; j-- {
+			if r.Chance(40) {
+				switch r.Intn(6) {
+				case 0:
+					sched = append(sched, nt)
+				case 1:
+					sched = append(sched, nt+1)
+				case 2:
+					sched = append(sched, nt+2)
+				case 3:
+					sched = append(sched, nt, nt+1) // Flush stays between its halves while callers run
+				default:
+					sched = append(sched, nt, nt+1, nt+2)
+				}
+			} else {
+				sched = append(sched, r.Intn(nt))
+			}
+		}
+		runSchemaFlush(out, root, id, progs, sched, "random")
+		id++
+	}
 	out.Notes = append(out.Notes, "crash = copy of the database directories taken at an operation boundary or at a scheduling point inside MetricMetaDatabase.Flush; the image is then opened as the recovered database")
 	out.Finish()
 }
